@@ -154,6 +154,7 @@ type Visit struct {
 	PostErr bool   `json:"post_err,omitempty"`
 	Payload int    `json:"payload,omitempty"` // 0: unique pointer payloads; >0: index into the zoo (prep and exec values)
 	FBNil   bool   `json:"fb_nil,omitempty"`  // a rescuing fallback returns (nil, nil): nil then IS the exec outcome
+	PanicIn string `json:"panic_in,omitempty"` // "prep" | "exec" | "post": that callback panics on this visit (the run is over; what a LATER run of the same objects does is what is looked at)
 }
 
 // Conn is one Connect call (To < 0 means nil target).
@@ -652,6 +653,9 @@ func (c *core) prep(ctx context.Context, shared *flyt.SharedStore) (any, error) 
 		c.x.midConnect(c.id, v, "prep")
 	}
 	s := c.script()
+	if s.PanicIn == "prep" {
+		panic("scripted panic in prep")
+	}
 	if s.PrepErr {
 		c.curPrep = nil
 		c.x.setRet(seq, errID(c.id, v, "prep", 0))
@@ -701,6 +705,9 @@ func (c *core) exec(ctx context.Context, prepRes any) (any, error) {
 		c.x.midConnect(c.id, v, "exec")
 	}
 	s := c.script()
+	if s.PanicIn == "exec" {
+		panic("scripted panic in exec")
+	}
 	if c.attempt >= s.FirstOK {
 		c.produced = c.mkPayload("exec", c.attempt)
 		return c.produced, nil
@@ -773,6 +780,9 @@ func (c *core) post(ctx context.Context, shared *flyt.SharedStore, prepRes, exec
 		c.x.midConnect(c.id, v, "post")
 	}
 	s := c.script()
+	if s.PanicIn == "post" {
+		panic("scripted panic in post")
+	}
 	if s.PostErr {
 		c.x.setRet(seq, errID(c.id, v, "post", 0))
 		if v%2 == 0 {
